@@ -183,7 +183,14 @@ def run(ctx):
                     'translator g_actions.py (action probing of the real p_* functions on mock productions)',
                     'ply tracking semantics as modelled in Model/LR.lean + Model/Actions.lean (tied by S2b)']
     ctx.assumptions += ['token positions themselves are C06\'s subject; this check consumes the real lexer\'s tokens']
-    texts = T.valid_texts(ctx, ctx.n(120, 392), ctx.n(150, 1500), extra_corpus='C11')
+    import genjs
+    layouts = [genjs.Layout('spaced'), genjs.Layout('min'), genjs.Layout('wild', unicode_terms=True),
+               genjs.Layout('wild', drop_semi=0.6, unicode_terms=True),
+               genjs.Layout('wild', comments=0.2, unicode_terms=True), genjs.Layout('spaced', drop_semi=1.0)]
+    texts = T.valid_texts(ctx, ctx.n(120, 392), ctx.n(150, 1500), extra_corpus='C11', layouts=layouts)
+    # multi-line tokens whose only line terminators are U+2028 / U+2029 / CR
+    for lt in ('\u2028', '\u2029', '\r', '\r\n', '\n'):
+        texts += ['/* a%s b */ x = 1;' % lt, "s = 'a\\%sb'; y = s;" % lt, 'a%sb = c' % lt, 'f(/*%s*/ 1,%s 2)' % (lt, lt)]
     # S2b tie
     if getattr(ctx, 'drivers_ok', True):
         parsetie.parse_tie(ctx, texts[:ctx.n(150, 1200)])
